@@ -16,7 +16,7 @@ package main
 //   quick   : ALL interleavings of 2 requests (70 / 20 per scenario) + a sample of 3-request ones
 //   thorough: ALL interleavings of 3 requests (34650 / 1680), sampled down to 5000 above that
 //
-// Correspondence (Corr/C15.v check_race_group, storage flavour `copy`): the model's run_il on the same
+// Correspondence (Corr/C15.v check_race_group_x, storage flavours `copy` and `strict`): the model's run_il_x on the same
 // schedule must give the same successes, the same requests succeeding, the same call sequences.
 // Monitor (Go side, both storage flavours): two or more successes on one credential (except refresh
 // tokens with rotation off, whose re-use the property allows) -> a Finding whose signature is
@@ -29,6 +29,13 @@ package main
 //                  (consume call or, without one, completion of the request) - e.g. a credential that
 //                  is not consumed at all, so that even serial presentations succeed
 // Only `overlap` is a known finding (K1-K4: the storage interfaces offer no atomic take).
+// Storage flavours: copy and alias (stores.go) and STRICT (suite_c15strict.go: Delete of something absent is an
+// error) - copy and strict are compared with the model (Corr/C15.v check_race_group_x over RaceStrict.sem_of).
+// On the strict flavour, where the consume is a Delete, two winners are named
+//   race:<kind>:strict-store:<class>              (never known: a request went on although its delete failed)
+// END TO END: after racing /authorize requests every code / callback id handed out is redeemed / continued;
+// two or more TOKEN RESPONSES out of one request_uri are named
+//   race:<kind>:several-token-responses           (never known)
 
 import (
 	"context"
@@ -826,6 +833,15 @@ func init() {
 						if flavour == "alias" && len(scheds) > 400 {
 							scheds = scheds[:400]
 						}
+						if flavour == "strict" && len(scheds) > 600 {
+							// (thorough tier, three requests) the strict flavour is compared on every interleaving of two requests
+							// and on a sample of 600 of three, spread evenly over the enumeration (the theorems cover all of them)
+							var sub [][]int
+							for i := 0; i < 600; i++ {
+								sub = append(sub, scheds[i*len(scheds)/600])
+							}
+							scheds = sub
+						}
 						if flavour == "alias" && ctx.Quick() && sc.RespType != "" && len(scheds) > 80 {
 							// (the alias flavour is only monitored; the response-type scenarios differ from one another
 							// in what is issued after the consume, not in the window) every third schedule
@@ -886,7 +902,7 @@ func init() {
 							if hi > len(good) {
 								hi = len(good)
 							}
-							g := &c15Group{sc: sc, k: pl.k, exhaustive: pl.exhaustive && lo == 0 && hi == len(good) && len(good) == len(pl.scheds), runs: good[lo:hi]}
+							g := &c15Group{sc: sc, k: pl.k, exhaustive: pl.exhaustive && lo == 0 && hi == len(good) && len(good) == len(pl.scheds) && len(scheds) == len(pl.scheds), runs: good[lo:hi]}
 							groups = append(groups, g)
 							for i := range g.runs {
 								r := &g.runs[i]
@@ -945,7 +961,7 @@ func init() {
 		ctx.Meta.Cases = total
 		ctx.Meta.Ops = total
 		ctx.Meta.Distinct = len(distinct)
-		ctx.Meta.Rule = "one case = one schedule imposed on k real concurrent requests presenting one credential (5 scenarios x rotation on/off + the pushed request_uri with each of the 7 response types - implicit and hybrid ones: access token, ID token and grant session issued by the authorization endpoint - quick: one rotation setting each; quick: every interleaving of 2 requests + 24 random interleavings of 3; thorough: every interleaving of 3, sampled to 5000); distinct by (scenario, k, who succeeded, call sequences); non-trivial = at least one request accepted and one refused"
+		ctx.Meta.Rule = "one case = one schedule imposed on k real concurrent requests presenting one credential, on the copy storage and on the STRICT storage (Delete of something absent is an error), followed for racing /authorize requests by the redemption / continuation of every code / callback id handed out (token responses per request_uri counted) (5 scenarios x rotation on/off + the pushed request_uri with each of the 7 response types - implicit and hybrid ones: access token, ID token and grant session issued by the authorization endpoint - quick: one rotation setting each; quick: every interleaving of 2 requests + 24 random interleavings of 3; thorough: every interleaving of 3, sampled to 5000); distinct by (scenario, k, who succeeded, call sequences); non-trivial = at least one request accepted and one refused"
 		var sigs []string
 		for s := range findings {
 			sigs = append(sigs, s)
@@ -957,7 +973,7 @@ func init() {
 		for i := 0; i < len(jcases) && len(ctx.Meta.Samples) < 2; i += 37 {
 			ctx.Meta.Samples = append(ctx.Meta.Samples, map[string]any{"note": jcases[i]["Note"], "race": jcases[i]["Race"]})
 		}
-		ctx.Meta.Extra = map[string]any{"schedules_not_imposed": harnessErrs, "storage_flavour_compared_with_model": "copy", "storage_flavours_monitored": []string{"copy", "alias"}}
+		ctx.Meta.Extra = map[string]any{"schedules_not_imposed": harnessErrs, "storage_flavours_compared_with_model": []string{"copy", "strict"}, "storage_flavours_monitored": []string{"copy", "strict", "alias"}}
 	}})
 
 	replayers["c15"] = func(path string) int {
